@@ -90,12 +90,273 @@ theorem c07_translated_setReaderPos_frame (grow : Nat → Nat) (pre : List Op) (
   · intro a ha
     rw [cellsOf_conc, cellsOf_conc, hfa a ha, concH_sim hsim]
 
-/-- the translator translated all five functions on this run (an edit that leaves its fragment lands in `untranslatedAst`
-    and empties `translatedAst`: then this fails, and so does the build of the theorems above) -/
+/-- the translator translated all seven functions on this run (an edit that leaves its fragment lands in `untranslatedAst`
+    and empties `translatedAst`: then this fails, and so does the build of the theorems above and below) -/
 theorem c07_translated_list :
     FactsAstProg.translatedAst = ["SetReaderPos", "NodeList_SetReaderPos", "TerminalNode_SetReaderPos",
-      "NonTerminalNode_SetReaderPos", "EndNode_SetReaderPos"] ∧ FactsAstProg.untranslatedAst = [] :=
+      "NonTerminalNode_SetReaderPos", "EndNode_SetReaderPos", "AppendNode", "NodeList_Append"] ∧
+    FactsAstProg.untranslatedAst = [] :=
   ⟨rfl, rfl⟩
+
+/-! ### the append family: `ast.AppendNode`, `(*NodeList).Append` (the heart of C07)
+
+  `(*NodeList).Append` has a pointer receiver that it writes through (`*nl = append(*nl, v)`): the translation takes the value
+  of `*nl` and returns the new one.  `append` is Go's: IN PLACE when len < cap — a write into the backing array that every other
+  header onto that array shares — and a fresh array (capacity by the growth policy of the store) otherwise. -/
+
+/-- the fuel that certainly suffices for `AppendNode(h1, h2)` / `h1.Append(h2)` -/
+def appendFuel (h1 h2 : Handle) : Nat := hLen h1 + 2 * hLen h2 + 6
+
+theorem held_appOK {s : St} {top : Nat → Nat} (inv : Inv s top) {h : Handle} (hh : Held s h) :
+    AppOK s.nodes.length s.arrs h := by
+  have hw := hh.hwf inv
+  cases h with
+  | list sl => exact hw.1
+  | ptr n => exact hw
+  | _ => trivial
+
+/-- **C07P (the translated AppendNode is the machine's, any state).**  For every state of the machine whose array cells are
+    `CellOK` (no nested list, pointers to existing objects) and operands that lie inside the heap (`AppOK`; both hold in every
+    reachable state for every held handle), every growth policy, every `fuel ≥ appendFuel h1 h2`: the function translated
+    from ast/helpers.go on the corresponding store returns normally with the value and exactly the store — in-place write
+    into spare capacity included — that `appendNodeCore` computes. -/
+theorem c07_translated_appendNode (grow : Nat → Nat) (s : St) (h1 h2 : Handle) (ok : CellsOK s.nodes.length s.arrs)
+    (h1ok : AppOK s.nodes.length s.arrs h1) (h2ok : AppOK s.nodes.length s.arrs h2) (fuel : Nat)
+    (hf : appendFuel h1 h2 ≤ fuel) :
+    FactsAstProg.AppendNode fuel (concH s.nodes h1) (concH s.nodes h2) (conc grow s.nodes s.arrs) =
+      .ok (concH s.nodes (appendNodeCore grow s.arrs h1 h2).2) (conc grow s.nodes (appendNodeCore grow s.arrs h1 h2).1) :=
+  appendNode_tie grow s.nodes s.arrs h1 h2 ok h1ok h2ok fuel hf
+
+/-- **C07P (the translated (*NodeList).Append is the machine's, any state).**  The value of `*nl` after the call and the
+    store are those of `nlAppend`: flattening of a list argument element by element, an EMPTY value only if not yet present,
+    everything else appended. -/
+theorem c07_translated_nodeListAppend (grow : Nat → Nat) (s : St) (sl : Slice) (h2 : Handle)
+    (ok : CellsOK s.nodes.length s.arrs) (w : SWF s.arrs sl) (h2ok : AppOK s.nodes.length s.arrs h2) (fuel : Nat)
+    (hf : appendFuel (Handle.list sl) h2 ≤ fuel) :
+    FactsAstProg.NodeList_Append fuel (concSl sl) (concH s.nodes h2) (conc grow s.nodes s.arrs) =
+      .ok (concSl (nlAppend grow s.arrs sl h2).2) (conc grow s.nodes (nlAppend grow s.arrs sl h2).1) :=
+  nlAppend_tie grow s.nodes s.nodes.length s.arrs sl h2 ok w h2ok fuel (by have : hLen (Handle.list sl) = sl.len := rfl; (simp only [appendFuel] at hf); omega)
+
+theorem doAppend_shape (grow : Nat → Nat) (s : St) (i : Nat) (h1 : Handle) (j : Option Nat) (h2 : Handle) :
+    (doAppend grow s i h1 j h2).nodes = s.nodes ∧
+    (doAppend grow s i h1 j h2).arrs = (appendNodeCore grow s.arrs h1 h2).1 ∧
+    (doAppend grow s i h1 j h2).pool.getLast? = some ⟨(appendNodeCore grow s.arrs h1 h2).2, true⟩ := by
+  unfold doAppend
+  refine ⟨?_, rfl, by simp [St.push]⟩
+  simp only [St.push]
+  split
+  · cases j <;> simp [consume_nodes]
+  · simp [consume_nodes]
+
+/-- **C07P (the operations of the machine: `c07_translated_append`).**  In every reachable state:
+    * `Op.appendNode i j` on live pool entries: the translated `ast.AppendNode` run on the corresponding store returns the
+      value the machine pushes and leaves exactly the store of the machine's next state (the node structs are not touched);
+    * `Op.optionalAppend i pos` (Optional's `ast.AppendNode(res, ast.EmptyNode(pos))`): the same with the EMPTY value;
+    * `Op.nlAppend i j` on a list entry and a non-nil value: the translated `(*NodeList).Append` leaves `*nl` equal to the
+      header the machine pushes, and the store of the machine's next state. -/
+theorem c07_translated_append (grow : Nat → Nat) (pre : List Op) :
+    (∀ (i j : Nat) (h1 h2 : Handle), (run grow pre {}).get i = some h1 → (run grow pre {}).get j = some h2 →
+      ∀ fuel, appendFuel h1 h2 ≤ fuel →
+      ∃ v, (step grow (run grow pre {}) (Op.appendNode i j)).1.pool.getLast? = some ⟨v, true⟩ ∧
+        (step grow (run grow pre {}) (Op.appendNode i j)).2 = Out.none ∧
+        (step grow (run grow pre {}) (Op.appendNode i j)).1.nodes = (run grow pre {}).nodes ∧
+        FactsAstProg.AppendNode fuel (concH (run grow pre {}).nodes h1) (concH (run grow pre {}).nodes h2)
+            (conc grow (run grow pre {}).nodes (run grow pre {}).arrs) =
+          .ok (concH (run grow pre {}).nodes v)
+            (conc grow (run grow pre {}).nodes (step grow (run grow pre {}) (Op.appendNode i j)).1.arrs)) ∧
+    (∀ (i pos : Nat) (h1 : Handle), (run grow pre {}).get i = some h1 →
+      ∀ fuel, appendFuel h1 (Handle.empty pos) ≤ fuel →
+      ∃ v, (step grow (run grow pre {}) (Op.optionalAppend i pos)).1.pool.getLast? = some ⟨v, true⟩ ∧
+        (step grow (run grow pre {}) (Op.optionalAppend i pos)).2 = Out.none ∧
+        (step grow (run grow pre {}) (Op.optionalAppend i pos)).1.nodes = (run grow pre {}).nodes ∧
+        FactsAstProg.AppendNode fuel (concH (run grow pre {}).nodes h1) (SlicePrelude.Node.empty (pos : Int))
+            (conc grow (run grow pre {}).nodes (run grow pre {}).arrs) =
+          .ok (concH (run grow pre {}).nodes v)
+            (conc grow (run grow pre {}).nodes (step grow (run grow pre {}) (Op.optionalAppend i pos)).1.arrs)) ∧
+    (∀ (i j : Nat) (sl : Slice) (h2 : Handle), (run grow pre {}).get i = some (Handle.list sl) →
+      (run grow pre {}).get j = some h2 → h2 ≠ Handle.nil →
+      ∀ fuel, appendFuel (Handle.list sl) h2 ≤ fuel →
+      ∃ sl', (step grow (run grow pre {}) (Op.nlAppend i j)).1.pool.getLast? = some ⟨Handle.list sl', true⟩ ∧
+        (step grow (run grow pre {}) (Op.nlAppend i j)).2 = Out.none ∧
+        (step grow (run grow pre {}) (Op.nlAppend i j)).1.nodes = (run grow pre {}).nodes ∧
+        FactsAstProg.NodeList_Append fuel (concSl sl) (concH (run grow pre {}).nodes h2)
+            (conc grow (run grow pre {}).nodes (run grow pre {}).arrs) =
+          .ok (concSl sl')
+            (conc grow (run grow pre {}).nodes (step grow (run grow pre {}) (Op.nlAppend i j)).1.arrs)) := by
+  obtain ⟨top, inv⟩ := reachable_inv grow pre
+  have held : ∀ {i h}, (run grow pre {}).get i = some h → Held (run grow pre {}) h := by
+    intro i h hg
+    obtain ⟨e, he, _, heh⟩ := get_some hg
+    exact Or.inl ⟨e, List.mem_of_getElem? he, heh⟩
+  refine ⟨?_, ?_, ?_⟩
+  · intro i j h1 h2 hg1 hg2 fuel hf
+    have hs := doAppend_shape grow (run grow pre {}) i h1 (some j) h2
+    have ht := appendNode_tie grow _ _ h1 h2 inv.cellok (held_appOK inv (held hg1)) (held_appOK inv (held hg2)) fuel hf
+    refine ⟨(appendNodeCore grow (run grow pre {}).arrs h1 h2).2, ?_, ?_, ?_, ?_⟩
+    · simp only [step, hg1, hg2]; exact hs.2.2
+    · simp [step, hg1, hg2]
+    · simp only [step, hg1, hg2]; exact hs.1
+    · simp only [step, hg1, hg2]; rw [hs.2.1]; exact ht
+  · intro i pos h1 hg1 fuel hf
+    have hs := doAppend_shape grow (run grow pre {}) i h1 none (Handle.empty pos)
+    have ht := appendNode_tie grow _ _ h1 (Handle.empty pos) inv.cellok (held_appOK inv (held hg1)) trivial fuel hf
+    refine ⟨(appendNodeCore grow (run grow pre {}).arrs h1 (Handle.empty pos)).2, ?_, ?_, ?_, ?_⟩
+    · simp only [step, hg1]; exact hs.2.2
+    · simp [step, hg1]
+    · simp only [step, hg1]; exact hs.1
+    · simp only [step, hg1]; rw [hs.2.1]; exact ht
+  · intro i j sl h2 hg1 hg2 hnil fuel hf
+    have ht := nlAppend_tie grow (run grow pre {}).nodes _ _ sl h2 inv.cellok (held_appOK inv (held hg1))
+      (held_appOK inv (held hg2)) fuel (by have : hLen (Handle.list sl) = sl.len := rfl; (simp only [appendFuel] at hf); omega)
+    refine ⟨(nlAppend grow (run grow pre {}).arrs sl h2).2, ?_, ?_, ?_, ?_⟩
+    · simp [step, hg1, hg2, hnil, St.push]
+    · simp [step, hg1, hg2, hnil]
+    · simp [step, hg1, hg2, hnil, St.push, consume_nodes]
+    · simp only [step, hg1, hg2, hnil, if_false, St.push]; exact ht
+
+/-- **C07P (frame of the translated AppendNode: a returned result is not modified).**  In every reachable state, the
+    translated `ast.AppendNode` on two live pool entries returns normally and, in the store it leaves: the node structs and
+    the growth policy are untouched, the heap of arrays only grew, every array that existed keeps its size, and EVERY list
+    anybody holds — a pool entry, live or consumed, or the memo table — still has exactly the elements it had. -/
+theorem c07_translated_append_frame (grow : Nat → Nat) (pre : List Op) (i j : Nat) (h1 h2 : Handle)
+    (hg1 : (run grow pre {}).get i = some h1) (hg2 : (run grow pre {}).get j = some h2) (fuel : Nat)
+    (hf : appendFuel h1 h2 ≤ fuel) :
+    ∃ (v : SlicePrelude.Node) (st' : SlicePrelude.St),
+      FactsAstProg.AppendNode fuel (concH (run grow pre {}).nodes h1) (concH (run grow pre {}).nodes h2)
+        (conc grow (run grow pre {}).nodes (run grow pre {}).arrs) = .ok v st' ∧
+      st'.grow = grow ∧ st'.cells = (conc grow (run grow pre {}).nodes (run grow pre {}).arrs).cells ∧
+      (conc grow (run grow pre {}).nodes (run grow pre {}).arrs).arrays.length ≤ st'.arrays.length ∧
+      (∀ a, a < (conc grow (run grow pre {}).nodes (run grow pre {}).arrs).arrays.length →
+        (SlicePrelude.cellsOf st' a).length =
+          (SlicePrelude.cellsOf (conc grow (run grow pre {}).nodes (run grow pre {}).arrs) a).length) ∧
+      (∀ sl, Held (run grow pre {}) (Handle.list sl) →
+        SlicePrelude.view st' (concSl sl) =
+          SlicePrelude.view (conc grow (run grow pre {}).nodes (run grow pre {}).arrs) (concSl sl)) := by
+  obtain ⟨top, inv⟩ := reachable_inv grow pre
+  obtain ⟨v, _, _, hn, ht⟩ := (c07_translated_append grow pre).1 i j h1 h2 hg1 hg2 fuel hf
+  have fr := (step_ok grow inv (Op.appendNode i j) rfl).frame.2
+  refine ⟨_, _, ht, rfl, rfl, ?_, ?_, ?_⟩
+  · simpa [conc] using fr.1
+  · intro a ha
+    rw [cellsOf_conc, cellsOf_conc, List.length_map, List.length_map]
+    exact fr.2.1 a (by simpa [conc] using ha)
+  · intro sl hh
+    rw [view_conc, view_conc, fr.view_eq sl (hh.hwf inv).2.2.1]
+
+/-! ### the two facts C07 is about, on the TRANSLATED code -/
+
+/-- **C07P (a) (with the capacity clip an append never writes into an existing array).**  For EVERY store of the run-time
+    (not only those that correspond to a machine state), every argument (nested lists included) and every fuel: if the
+    header `*nl` has no spare capacity (len = cap — what `nl[:len(nl):len(nl)]` of Memoize establishes) and the translated
+    `(*NodeList).Append` returns, then every array that existed before is exactly as it was (the heap only grew, at its end),
+    the node structs are untouched, and the new value of `*nl`, if it has spare capacity, lives on an array allocated by
+    this call. -/
+theorem c07p_clipped_append_fresh (fuel : Nat) (nl : SlicePrelude.Sl) (node : SlicePrelude.Node) (st : SlicePrelude.St)
+    (nl' : SlicePrelude.Sl) (st' : SlicePrelude.St) (hclip : nl.len = nl.cap)
+    (h : FactsAstProg.NodeList_Append fuel nl node st = .ok nl' st') :
+    st'.arrays.take st.arrays.length = st.arrays ∧ st.arrays.length ≤ st'.arrays.length ∧ st'.cells = st.cells ∧
+      st'.grow = st.grow ∧ (nl'.len < nl'.cap → st.arrays.length ≤ nl'.arr) := by
+  have r := (append_away_all st.arrays.length fuel).1 nl node st nl' st' (Nat.le_refl _) (fun hlt => by omega) h
+  exact ⟨by rw [r.2.2.2.2, List.take_length], r.2.2.2.1, r.2.1, r.2.2.1, r.1⟩
+
+/-- **C07P (a), `ast.AppendNode`.**  The same for `ast.AppendNode(n1, n2)`: if `n1`, when it is a list, has no spare
+    capacity, no existing array is written (when `n1` is not a list the fresh `[]parsley.Node{n1}` has len = cap = 1). -/
+theorem c07p_clipped_appendNode_fresh (fuel : Nat) (n1 n2 v : SlicePrelude.Node) (st st' : SlicePrelude.St)
+    (hclip : ∀ nl, n1 = SlicePrelude.Node.list nl → nl.len = nl.cap)
+    (h : FactsAstProg.AppendNode fuel n1 n2 st = .ok v st') :
+    st'.arrays.take st.arrays.length = st.arrays ∧ st.arrays.length ≤ st'.arrays.length ∧ st'.cells = st.cells ∧
+      st'.grow = st.grow := by
+  have key : Pres st.arrays.length st st' := by
+    cases fuel with
+    | zero => rw [FactsAstProg.AppendNode] at h; cases h
+    | succ f =>
+      rw [FactsAstProg.AppendNode] at h
+      split at h
+      · simp only [pure_run, SlicePrelude.Res.ok.injEq] at h; rw [← h.2]; exact Pres.refl (Nat.le_refl _)
+      · split at h
+        · simp only [pure_run, SlicePrelude.Res.ok.injEq] at h; rw [← h.2]; exact Pres.refl (Nat.le_refl _)
+        · cases hl : SlicePrelude.Node.asList n1 with
+          | some n =>
+            simp only [hl] at h
+            have hn1 : n1 = SlicePrelude.Node.list n := by
+              cases n1 <;> simp [SlicePrelude.Node.asList] at hl
+              rw [hl]
+            obtain ⟨a, s1, h1, h2⟩ := bind_ok_inv _ _ _ _ _ h
+            have r := (append_away_all st.arrays.length f).1 n n2 st a s1 (Nat.le_refl _)
+              (fun hlt => by have := hclip n hn1; omega) h1
+            simp only [pure_run, SlicePrelude.Res.ok.injEq] at h2
+            rw [← h2.2]; exact r.2
+          | none =>
+            simp only [hl] at h
+            obtain ⟨a, s1, h1, h2⟩ := bind_ok_inv _ _ _ _ _ h
+            simp only [SlicePrelude.Go.litSlice, SlicePrelude.Res.ok.injEq] at h1
+            obtain ⟨rfl, rfl⟩ := h1
+            obtain ⟨b, s2, h3, h4⟩ := bind_ok_inv _ _ _ _ _ h2
+            have r := (append_away_all st.arrays.length f).1 _ n2 _ b s2 (by simp) (fun hlt => by simp at hlt) h3
+            simp only [pure_run, SlicePrelude.Res.ok.injEq] at h4
+            rw [← h4.2]
+            have r0 : Pres st.arrays.length st
+                { cells := st.cells, arrays := st.arrays ++ [[n1]], grow := st.grow } :=
+              ⟨rfl, rfl, by simp, by simp⟩
+            exact Pres.trans r0 r.2
+  exact ⟨by rw [key.2.2.2, List.take_length], key.2.2.1, key.1, key.2.1⟩
+
+/-- the store of the D1 witness: five terminal structs, one array of capacity 4 holding three of them -/
+def d1Store : SlicePrelude.St :=
+  { cells := (List.range 5).map (fun (i : Nat) =>
+      { readerPos := (i : Int) + 1, pos := (i : Int), token := i, value := 0, children := ⟨0, 0, 0⟩ }),
+    arrays := [[.term 0, .term 1, .term 2, .nil]], grow := goGrow }
+
+/-- **C07P (b) (D1 on the translated code).**  One UNCLIPPED header with spare capacity (three elements, capacity four —
+    what the pinned `Memoize` handed to two consumers) and two `ast.AppendNode` calls through it: both write cell 3 of the one
+    shared array, both return the header ⟨0, 4, 4⟩; what the first consumer's result reads changes from `term 3` to `term 4`
+    under the second call.  By evaluation of the translated functions. -/
+theorem c07p_unclipped_append_corrupts :
+    ∃ (shared : SlicePrelude.Sl) (st1 st2 : SlicePrelude.St), shared.len < shared.cap ∧
+      FactsAstProg.AppendNode 9 (.list shared) (.term 3) d1Store = .ok (.list ⟨0, 4, 4⟩) st1 ∧
+      FactsAstProg.AppendNode 9 (.list shared) (.term 4) st1 = .ok (.list ⟨0, 4, 4⟩) st2 ∧
+      SlicePrelude.view st1 ⟨0, 4, 4⟩ = [.term 0, .term 1, .term 2, .term 3] ∧
+      SlicePrelude.view st2 ⟨0, 4, 4⟩ = [.term 0, .term 1, .term 2, .term 4] ∧
+      st2.arrays.length = 1 :=
+  ⟨⟨0, 3, 4⟩, _, _, by decide, rfl, rfl, by decide, by decide, by decide⟩
+
+/-- the same two calls through the CLIPPED header ⟨0, 3, 3⟩ (an instance of `c07p_clipped_appendNode_fresh`, by
+    evaluation): each allocates, the shared array and the first result are left alone -/
+example :
+    ∃ (st1 st2 : SlicePrelude.St),
+      FactsAstProg.AppendNode 9 (.list ⟨0, 3, 3⟩) (.term 3) d1Store = .ok (.list ⟨1, 4, 6⟩) st1 ∧
+      FactsAstProg.AppendNode 9 (.list ⟨0, 3, 3⟩) (.term 4) st1 = .ok (.list ⟨2, 4, 6⟩) st2 ∧
+      SlicePrelude.view st1 ⟨1, 4, 6⟩ = [.term 0, .term 1, .term 2, .term 3] ∧
+      SlicePrelude.view st2 ⟨1, 4, 6⟩ = [.term 0, .term 1, .term 2, .term 3] ∧
+      SlicePrelude.view st2 ⟨2, 4, 6⟩ = [.term 0, .term 1, .term 2, .term 4] ∧
+      st2.arrays.take 1 = d1Store.arrays :=
+  ⟨_, _, rfl, rfl, by decide, by decide, by decide, by decide⟩
+
+/-- non-vacuity of `c07_translated_append` with an IN-PLACE write: the history of the D1 witness of `c07_pinned_corrupts` on
+    the machine WITH the clip up to the first consumer's append — entry 10 is a linear list ⟨3, 4, 6⟩ with spare capacity —
+    then `AppendNode(pool[10], pool[4])`: the translated function writes cell 4 of array 3 in place, as the machine does, and
+    EMPTY de-duplication / flattening on the way: appending the list to itself element by element -/
+example :
+    let pre : List Op := [.newTerm 1 0 0 1, .newTerm 2 0 1 2, .newTerm 3 0 2 3, .newTerm 4 0 3 4, .newTerm 5 0 3 5,
+      .appendNode 0 1, .appendNode 5 2, .memoStore 0 6, .memoHit 0, .memoHit 0, .appendNode 8 3]
+    let s := run goGrow pre {}
+    s.get 10 = some (Handle.list ⟨3, 4, 6⟩) ∧ s.get 4 = some (Handle.ptr 4) ∧
+    ∃ st', FactsAstProg.AppendNode 20 (.list ⟨3, 4, 6⟩) (.term 4) (conc goGrow s.nodes s.arrs) = .ok (.list ⟨3, 5, 6⟩) st' ∧
+      SlicePrelude.cellsOf (conc goGrow s.nodes s.arrs) 3 = [.term 0, .term 1, .term 2, .term 3, .nil, .nil] ∧
+      SlicePrelude.cellsOf st' 3 = [.term 0, .term 1, .term 2, .term 3, .term 4, .nil] ∧
+      st'.arrays.length = (conc goGrow s.nodes s.arrs).arrays.length := by
+  intro pre s
+  have h := (c07_translated_append goGrow pre).1 10 4 (Handle.list ⟨3, 4, 6⟩) (Handle.ptr 4) (by decide) (by decide) 20
+    (by decide)
+  obtain ⟨v, hv, _, _, ht⟩ := h
+  have hv' : v = Handle.list ⟨3, 5, 6⟩ := by
+    have : (step goGrow (run goGrow pre {}) (Op.appendNode 10 4)).1.pool.getLast? = some ⟨Handle.list ⟨3, 5, 6⟩, true⟩ := by
+      decide
+    rw [this] at hv; cases hv; rfl
+  subst hv'
+  refine ⟨by decide, by decide, _, ht, by decide, ?_, ?_⟩
+  · rw [cellsOf_conc]; decide
+  · simp only [conc, List.length_map]; decide
 
 /-- non-vacuity, and the D5 witness on the translated code: the history of `c07_trim_shared_mutates` (a memoized terminal
     handed out twice); the translated SetReaderPos on one copy moves the end position of the one struct both — and the memo
